@@ -242,10 +242,21 @@ func divergent(t reflect.Type, seen map[reflect.Type]bool) string {
 		}
 		return divergent(t.Elem(), seen)
 	case reflect.Struct:
+		names := map[string]bool{}
 		for i := 0; i < t.NumField(); i++ {
 			f := t.Field(i)
 			if f.PkgPath != "" && !f.Anonymous {
 				continue
+			}
+			if tag := f.Tag.Get("json"); tag != "-" {
+				name, _, _ := strings.Cut(tag, ",")
+				if name == "" {
+					name = f.Name
+				}
+				if names[name] {
+					return "json-duplicate-member-name"
+				}
+				names[name] = true
 			}
 			if f.Anonymous {
 				return "json-embedded-struct"
@@ -536,6 +547,10 @@ type strOptT struct {
 type badTagT struct {
 	A int `json:"a'b"`
 }
+type dupNameT struct {
+	A int `json:"x"`
+	B int `json:"x"`
+}
 
 func reproducers() []reproducer {
 	return []reproducer{
@@ -548,6 +563,7 @@ func reproducers() []reproducer {
 		{"json-tag-string-option", "N int `json:\"n,string\"`", jsonCtx, strOptT{7}},
 		{"json-invalid-tag-name", "A int `json:\"a'b\"`", jsonCtx, badTagT{1}},
 		{"json-error-as-string", "a struct implementing error", jsonCtx, ErrT{"x"}},
+		{"json-duplicate-member-name", "two fields tagged json:\"x\"", jsonCtx, dupNameT{1, 2}},
 	}
 }
 
